@@ -515,6 +515,8 @@ def make_module(I):
         return is_number(v) or isinstance(v, str)
 
     reg("isscalar", _isscalar)
+    reg("isnan", lambda I, st, v: False)  # A1: reals are never NaN
+    reg("isfinite", lambda I, st, v: True)
     return N
 
 
